@@ -146,6 +146,15 @@ def real_checks(which):
                 except Exception as e:  # noqa: BLE001
                     return {"reproduced": True, "input": inp, "observed": f"{type(e).__name__}: {e}", "required": "construction succeeds"}
                 if which == "frame":
+                    # re-wrapping the first wrapper's own table must not touch it either
+                    inner = fp.pvt_props
+                    snap = {k: np.array(inner[k], dtype=float).copy() for k in list(inner.keys())}
+                    try:
+                        mod.FlowProperties(inner, float(P[2]))
+                    except Exception:  # noqa: BLE001
+                        pass
+                    if list(inner.keys()) != list(snap.keys()) or any(not np.array_equal(np.asarray(inner[k], dtype=float), snap[k]) for k in snap):
+                        return {"reproduced": True, "input": {**inp, "sequence": "fp1 = FlowProperties(table, p_i); FlowProperties(fp1.pvt_props, other p_i)"}, "observed": "fp1.pvt_props changed", "required": "unchanged"}
                     if list(t.keys()) != keys_before or any(not np.array_equal(np.asarray(t[k], dtype=float), before[k]) for k in keys_before):
                         return {"reproduced": True, "input": inp, "observed": {"keys": list(t.keys())}, "required": {"keys": keys_before, "values": "unchanged"}}
                 ms = np.asarray(fp.pvt_props["m-scaled"], dtype=float)
@@ -284,7 +293,7 @@ def build(ctx):
             return with_models(be.Verdict(be.PROVED, "FRAME", detail="no store reaches the caller's table or its arrays on any path"), *outs)
         return run
 
-    obs.append(Obligation("init.frame", "FlowProperties.__init__ leaves the caller's table (DataFrame or dict) with the same keys and arrays: writes go to the copy", frame(INIT, "FlowProperties", (LONG, SHORT)), [INIT], "FRAME", rp("frame")))
+    obs.append(Obligation("init.frame", "FlowProperties.__init__ leaves the caller's table (DataFrame or dict; raw, with a user alpha column, or already carrying the derived columns of an earlier wrapper) with the same keys and arrays: writes go to the copy", frame(INIT, "FlowProperties", (LONG, SHORT, LONG + ["alpha", "m-scaled"], SHORT + ["m-scaled"])), [INIT], "FRAME", rp("frame")))
 
     # ---------------- scaled pseudopressure
     def interps(o):
